@@ -74,6 +74,7 @@ type Thread struct {
 	cases   []selCase
 	hasDflt bool
 	cond    func() bool // opNet: enabled iff cond()
+	quiet   int64       // opIdle: additionally no timer may be due within this many ns
 	obj     *uint64     // hb cell of the object touched (opAtomic, opTimer, opNet)
 
 	// result of the granted operation
@@ -505,9 +506,12 @@ func (r *run) loop() {
 		nonIdle := len(en)
 		due := r.timers.Len() > 0 && r.timers.peek().when <= r.clock
 		if nonIdle == 0 && !due {
-			// idle waiters become enabled
+			// idle waiters become enabled (each may require a quiet period without timers ahead)
 			for _, t := range r.active {
 				if t.state == stPending && t.op == opIdle {
+					if t.quiet > 0 && r.timers.Len() > 0 && r.timers.peek().when <= r.clock+t.quiet && r.timers.peek().when <= r.horizon {
+						continue
+					}
 					en = append(en, t)
 				}
 			}
@@ -680,7 +684,20 @@ func Self() *Thread { return cur }
 func WaitIdle() {
 	t := enter(true)
 	t.op = opIdle
+	t.quiet = 0
 	t.point()
+}
+
+// WaitQuiet blocks until no other thread is enabled and no timer will fire within d:
+// nanosecond-scale internal sleeps (a router waiting for a chunk to become due) have run out.
+//
+//go:norace
+func WaitQuiet(d time.Duration) {
+	t := enter(true)
+	t.op = opIdle
+	t.quiet = int64(d)
+	t.point()
+	t.quiet = 0
 }
 
 // Block parks the calling thread until cond() holds; cond is evaluated by the
